@@ -14,7 +14,7 @@
 Looked-through calls keep the tree small: borrows, derefs, clones, `iter()`, `into_iter()`, `as_slice()`, unwrap.
 The trees are compared structurally by the rules (tables that must agree, ids that must come from the element they index).
 """
-from .core import callee_decl, op_const, op_place, origins
+from .core import callee_decl, callee_of, op_const, op_place, origins
 
 _VIEW = (
     "core::ops::deref::Deref::deref",
@@ -105,6 +105,64 @@ def _closure_param(prog, clo, k, depth):
 
 
 _active = []
+_INLINE = False
+
+
+class inlining:
+    """`with prov.inlining():` - calls of *private* functions that only read their parameters (a getter such as `fn n_slots(&self) ->
+    usize { self.labels.len() }`) are replaced by the expression they return, with the arguments substituted"""
+
+    def __enter__(self):
+        global _INLINE
+        self.old = _INLINE
+        _INLINE = True
+        return self
+
+    def __exit__(self, *a):
+        global _INLINE
+        _INLINE = self.old
+        return False
+
+
+def _subst_params(e, fn_path, args):
+    if not isinstance(e, tuple):
+        return e
+    if e[0] == "param" and e[1] == fn_path:
+        if e[2] - 1 < len(args):
+            return _wrap_fields(args[e[2] - 1], e[3])
+        return e
+    if e[0] == "elem":
+        return ("elem", _subst_params(e[1], fn_path, args), e[2])
+    if e[0] == "field":
+        return ("field", _subst_params(e[1], fn_path, args), e[2])
+    if e[0] == "call":
+        return ("call", e[1], tuple(_subst_params(a, fn_path, args) for a in e[2]), e[3])
+    if e[0] in ("agg", "op"):
+        return (e[0], e[1], tuple(_subst_params(a, fn_path, args) for a in e[2]))
+    if e[0] == "alt":
+        return ("alt", tuple(_subst_params(a, fn_path, args) for a in e[1]))
+    return e
+
+
+_getter_cache = {}
+
+
+def _inline_getter(prog, body, c, aexprs, depth):
+    tgt = prog.body_for_callee(c, body) if c.get("decl") != "<indirect>" else None
+    if tgt is None or tgt.kind == "closure" or not str(tgt.vis or "").startswith("in:") or tgt.n_args > 3 or depth > MAXD - 3:
+        return None
+    key = tgt.id
+    if key not in _getter_cache:
+        _getter_cache[key] = None
+        local_calls = [s for s in tgt.calls() if (callee_of(s) or {}).get("crate") == "crustabri"]
+        if not local_calls and len(tgt.reachable) <= 6 and not tgt.loops():
+            trees = prov(prog, tgt, {"l": 0, "p": []}, depth + 1)
+            if trees and all(len(subterms(t)) <= 8 and not any(l[0] in ("?", "var") for l in leaves(t)) for t in trees):
+                _getter_cache[key] = trees
+    trees = _getter_cache[key]
+    if trees is None:
+        return None
+    return {_subst_params(t, tgt.path, aexprs) for t in trees}
 
 
 def _const_tree(k):
@@ -184,7 +242,12 @@ def _prov(prog, body, place_or_op, depth):
                 es = prov(prog, body, a, depth + 1)
                 aexprs.append(sorted(es, key=repr)[0] if len(es) == 1 else ("alt", tuple(sorted(es, key=repr))))
             clos = tuple(c.path for c in _closures(prog, body, o.data))
-            out.add(_wrap_fields(("call", d, tuple(aexprs), clos), flds))
+            inl = _inline_getter(prog, body, o.data, aexprs, depth) if _INLINE else None
+            if inl is not None:
+                for x in inl:
+                    out.add(_wrap_fields(x, flds))
+            else:
+                out.add(_wrap_fields(("call", d, tuple(aexprs), clos), flds))
         elif o.kind == "agg":
             ops = o.site.node["rv"]["ops"]
             kind = o.data.get("variant") or o.data.get("kind")
